@@ -152,6 +152,11 @@ macro_rules! str_type {
         if !(*$v == $s) || *$v == other.as_str() || (flipped != $s && *$v == flipped.as_str()) || (shorter != $s && *$v == shorter.as_str()) {
             $ctx.fail("C14.eq-str", feats($name, "== &str"), format!("{}: comparison of {} with a string is not plain text equality", $name, show($s.as_bytes())));
         }
+        for d in decorated($s) {
+            if *$v == d.as_str() {
+                $ctx.fail("C14.eq-str", feats($name, "== &str (decorated)"), format!("{}: {} compares equal to the different text {}", $name, show($s.as_bytes()), show(d.as_bytes())));
+            }
+        }
     }};
     (@eq $ctx:expr, $name:literal, $v:expr, $o:expr, $s:expr, 2) => {{
         let other = format!("{}x", $s);
@@ -162,7 +167,31 @@ macro_rules! str_type {
         if !ok || bad {
             $ctx.fail("C14.eq-str", feats($name, "== str/&str/String"), format!("{}: comparison of {} with a string is not plain text equality", $name, show($s.as_bytes())));
         }
+        for d in decorated($s) {
+            if *$v == *d.as_str() || *$v == d.as_str() || *$v == d.clone() || $o == *d.as_str() || $o == d.as_str() || $o == d.clone() {
+                $ctx.fail("C14.eq-str", feats($name, "== str/&str/String (decorated)"), format!("{}: {} compares equal to the different text {}", $name, show($s.as_bytes()), show(d.as_bytes())));
+            }
+        }
     }};
+}
+
+/// Texts that differ from `s` by one delimiter-like decoration: the delimiter that introduces or
+/// ends the component in a reference put in front / behind, the first character removed, the
+/// surrounding brackets / quotes a tolerant comparison might strip.  None may compare equal to `s`.
+pub fn decorated(s: &str) -> Vec<String> {
+    let mut v = Vec::new();
+    for d in ["#", "?", "/", ":", "@", "//", ".", "./", "%", " ", "\"", "<", "[", "\u{feff}"] {
+        v.push(format!("{}{}", d, s));
+        v.push(format!("{}{}", s, d));
+    }
+    v.push(format!("<{}>", s));
+    v.push(format!("\"{}\"", s));
+    let mut cs = s.chars();
+    if cs.next().is_some() {
+        v.push(cs.as_str().to_string());
+    }
+    v.retain(|x| x != s);
+    v
 }
 
 macro_rules! bytes_type {
@@ -234,6 +263,11 @@ macro_rules! bytes_type {
         if !(*$v == $s) || *$v == other.as_str() || (flipped != $s && *$v == flipped.as_str()) || (shorter != $s && *$v == shorter.as_str()) {
             $ctx.fail("C14.eq-str", feats($name, "== &str"), format!("{}: comparison of {} with a string is not plain text equality", $name, show($s.as_bytes())));
         }
+        for d in decorated($s) {
+            if *$v == d.as_str() {
+                $ctx.fail("C14.eq-str", feats($name, "== &str (decorated)"), format!("{}: {} compares equal to the different text {}", $name, show($s.as_bytes()), show(d.as_bytes())));
+            }
+        }
     }};
     (@eq $ctx:expr, $name:literal, $v:expr, $o:expr, $s:expr, 2) => {{
         let other = format!("{}x", $s);
@@ -245,6 +279,11 @@ macro_rules! bytes_type {
         let bad = bad || (shorter != $s && (*$v == *shorter.as_str() || *$v == shorter.as_str() || *$v == shorter.clone() || *$v == *shorter.as_bytes() || *$v == shorter.as_bytes() || $o == *shorter.as_str() || $o == shorter.clone() || $o == *shorter.as_bytes()));
         if !ok || bad {
             $ctx.fail("C14.eq-str", feats($name, "== str/&str/String/[u8]"), format!("{}: comparison of {} with a string is not plain text equality", $name, show($s.as_bytes())));
+        }
+        for d in decorated($s) {
+            if *$v == *d.as_str() || *$v == d.as_str() || *$v == d.clone() || *$v == *d.as_bytes() || *$v == d.as_bytes() || $o == *d.as_str() || $o == d.clone() || $o == *d.as_bytes() {
+                $ctx.fail("C14.eq-str", feats($name, "== str/&str/String/[u8] (decorated)"), format!("{}: {} compares equal to the different text {}", $name, show($s.as_bytes()), show(d.as_bytes())));
+            }
         }
         // fixed-size byte arrays
         macro_rules! arr { ($n:literal) => {
